@@ -211,8 +211,10 @@ def run(ctx):
     if not ctx.thorough:
         # quick: all monitor kinds on one cost, all costs with the plain monitor
         cfgs = [c for c in cfgs if c['cost'] == 'sphere' or (c['evalmon'], c['stepmon']) == ('Monitor', 'Monitor')]
+    # the callback given as a callable OBJECT that is false in a boolean context (an empty recorder with __call__)
+    cfgs += [dict(c, callback_kind='falsy') for c in cfgs if c['cost'] == 'sphere' and (c['evalmon'], c['stepmon']) == ('Monitor', 'Monitor') and c['seed'] == ctx.seed]
     items = [(cfg, depth, (i,)) for cfg in cfgs for i in range(len(ALPHABET))]
-    kwcfgs = [c for c in cfgs if c['cost'] == 'sphere' and (c['evalmon'], c['stepmon']) in (('default', 'default'), ('Monitor', 'Monitor'))]
+    kwcfgs = [c for c in cfgs if not c.get('callback_kind') and c['cost'] == 'sphere' and (c['evalmon'], c['stepmon']) in (('default', 'default'), ('Monitor', 'Monitor'))]
     items += [(cfg, depth, (i,), 'kw') for cfg in kwcfgs for i in range(len(KW_ALPHABET))]
     ctx.bounds = {'depth': depth, 'alphabet': ALPHABET, 'keyword_alphabet': KW_ALPHABET, 'keyword_alphabet_configs': len(kwcfgs),
                   'configs': len(cfgs), 'solvers': list(solverlab.SOLVERS),
